@@ -202,7 +202,7 @@ def run(tier, seed):
     total = Result()
     rng = random.Random(seed)
     if tier == 'quick':
-        lens, nrand, variants = [1, 2, 3, 4], 1500, [('release', 1.0), ('dev', 0.5), ('nightly', 0.5)]
+        lens, nrand, variants = [1, 2, 3, 4, 7], 1500, [('release', 1.0), ('dev', 0.5), ('nightly', 0.5)]
     else:
         lens, nrand, variants = [1, 2, 3, 4, 7], 20000, [('release', 1.0), ('dev', 1.0), ('nightly', 1.0)]
     exhaustive = {L: nondecreasing_vectors(L + 1) for L in lens}
